@@ -41,4 +41,9 @@ void harness::run_case(const eng::Raw& raw, eng::Ctx& ctx)
 		else { a = lib::build(c.A, c.orderA, c.numA); b = lib::build(c.B, c.orderB, c.numB); }
 	}
 	inclc::check_all_explicit(ctx, a, b, want, expect);
+	// the converse question on the same pair, in the same child (doubles the verdicts per generated case)
+	ref::InclResult expect2;
+	if (!inclc::reference_verdict(ctx, c.B, c.A, expect2)) return;
+	ctx.tag(expect2.verdict == ref::Tri::YES ? "converse:included" : "converse:not-included");
+	inclc::check_all_explicit(ctx, b, a, expect2.verdict == ref::Tri::YES, expect2);
 }
